@@ -1,5 +1,5 @@
 (* ShapeP.v — the native patterns of the expansion list exactly what was written (C12). *)
-From ASModel Require Import Base Tokens Report Ast IR Expand Parser FrontEnd Shape.
+From ASModel Require Import Base Tokens Report Ast IR Expand Parser FrontEnd Shape Print.
 From ASProofs Require Import PatInd ParserP.
 
 Lemma smem_In s l : smem s l = true <-> In s l.
@@ -117,6 +117,24 @@ Proof. induction l as [|x r IH]; intros n; cbn; [reflexivity|]. rewrite IH. refl
 Theorem tuple_pattern_arity j id sp elems e :
   lowered_arity (expand j (PTuple id sp elems) e) = Some (List.length elems).
 Proof. cbn [expand lowered_arity]. unfold mapi. rewrite mapi_from_length. reflexivity. Qed.
+
+(* the native tuple pattern the expansion prints (every binding followed by a comma) is, for Rust, a tuple pattern with
+   exactly one sub-pattern per written element - also for ONE element, where the separator-only form `( x )` is not *)
+Lemma tuple_items_term prefix bs :
+  tuple_items (term_by (comma SCall) (map (pp_binder prefix) bs)) = Some (List.length bs, true).
+Proof.
+  induction bs as [|b bs IH]; [reflexivity|].
+  cbn [map term_by flat_map] in *. unfold term_by in IH.
+  destruct b as [i|]; cbn [pp_binder ident comma app tuple_items is_comma]; rewrite IH;
+    destruct (flat_map _ (map (pp_binder prefix) bs)); reflexivity.
+Qed.
+Theorem printed_tuple_pattern_arity prefix bs :
+  rust_tuple_arity (term_by (comma SCall) (map (pp_binder prefix) bs)) = Some (List.length bs).
+Proof. unfold rust_tuple_arity. rewrite tuple_items_term. destruct (List.length bs) as [|[|n]]; reflexivity. Qed.
+(* why the separator-only form was wrong: one binding between parentheses is a parenthesised pattern *)
+Theorem separator_only_one_tuple_is_no_tuple_pattern prefix b :
+  rust_tuple_arity (sep_by (comma SCall) (map (pp_binder prefix) [b])) = None.
+Proof. destruct b; reflexivity. Qed.
 
 Theorem variant_pattern_arity j id path elems e :
   elems <> [] -> lowered_arity (expand j (PEnum id path elems) e) = Some (List.length elems).
